@@ -149,7 +149,8 @@ def check(pid: str, tier: str, replay: str = None, repo: str = None, quiet=False
     }
     if selftest is not None:
         coverage['selftest'] = selftest
-    write_evidence(pid, tier, seed, wall, coverage, info['assumptions'], len(new_viol))
+    if not os.environ.get('MALSA_NO_EVIDENCE'):
+        write_evidence(pid, tier, seed, wall, coverage, info['assumptions'], len(new_viol))
     if new_viol:
         return 1
     if not quiet:
